@@ -28,6 +28,9 @@
 //   rabin.encrypt m ownsig value r olog => enctext
 //   rabin.decrypt m p q ownsig enctext olog => value | reject
 //   rabin.check pubkeytext pp fuel olog => 0/1 | reject(import failed)       pp = mpz_probab_prime_p(m,500) != 0
+//   rabin.generate name email keysize nizk fuel [coin byte strings] [cand:0/1,…] olog => secret key text
+//        every key of a run is generated once by TMCG_SecretKey(name, email, keysize, nizk); the coins are the byte
+//        strings libgcrypt served in order, the second list the answers of mpz_probab_prime_p per candidate
 // Model-independent records for the Python predicate of C10 (passed through by the Lean driver):
 //   prop.rabin sign bits=L len=N tag:honest => 0/1                     verdict of verify on the fresh signature
 //   prop.rabin verify bits=L <tag> => 0/1                             one per rabin.verify line
@@ -42,6 +45,21 @@
 #include <memory>
 #include <set>
 #include <map>
+#include <dlfcn.h>
+
+// mpz_probab_prime_p is interposed (the executable's definition pre-empts libgmp's, the real one is reached through
+// dlsym(RTLD_NEXT)): while `primelog.on`, every call is recorded as (candidate, answer) — the primality oracle of
+// rabin.generate lines.
+struct PrimeLog { bool on = false; std::vector<std::pair<std::string, int> > calls; };
+static PrimeLog primelog;
+extern "C" int mpz_probab_prime_p(mpz_srcptr n, int reps) __GMP_NOTHROW
+{
+	typedef int (*fn_t)(mpz_srcptr, int);
+	static fn_t real = (fn_t)dlsym(RTLD_NEXT, "__gmpz_probab_prime_p");
+	int r = real(n, reps);
+	if (primelog.on) primelog.calls.push_back(std::make_pair(zs(n), r));
+	return r;
+}
 
 static const size_t MD = 32, K0 = TMCG_PRAB_K0, S0 = TMCG_SAEP_S0;
 
@@ -706,8 +724,20 @@ static void boundary_cases(SplitMix &g, std::vector<KeyCtx> &ks)
 
 static void make_key(std::vector<KeyCtx> &ks, const char *name, unsigned long bits, bool nizk)
 {
-	KeyCtx k; k.sk.reset(new TMCG_SecretKey(name, std::string(name) + "@example.org", bits, nizk));
-	k.pk.reset(new TMCG_PublicKey(*k.sk)); k.L = mpz_sizeinbase(k.sk->m, 2); k.mnsize = k.L / 8; k.can_enc = enc_ok(k.sk->m); k.nizk = nizk;
+	KeyCtx k; std::string email = std::string(name) + "@example.org";
+	cap_start(); primelog.calls.clear(); primelog.on = true;
+	k.sk.reset(new TMCG_SecretKey(name, email, bits, nizk));
+	primelog.on = false;
+	std::vector<CoinLogEntry> ges = coins.take();
+	k.pk.reset(new TMCG_PublicKey(*k.sk));
+	{
+		size_t mn = mnsize_of(k.sk->m); std::string data = selfdata(*k.pk);
+		std::string ol = cap_olog([&](const std::string &x) { return (x.size() == MD) ? mn - MD : mn; }, &data);
+		std::string pl = "["; for (size_t i = 0; i < primelog.calls.size(); i++) { if (i) pl += ","; pl += primelog.calls[i].first + ":" + (primelog.calls[i].second ? "1" : "0"); } pl += "]";
+		emit("rabin.generate " + hexs(std::string(name)) + " " + hexs(email) + " " + std::to_string(bits) + " " + b2s(nizk) + " 10000000 " + coin_bytes_hex(ges) + " " + pl + " " + ol +
+			" tag:honest => " + hexs(sectext(*k.sk)));
+		emit("prop.rabin generate bits=" + std::to_string(bits) + " nizk=" + b2s(nizk) + " primecalls=" + std::to_string(primelog.calls.size()) + " coins=" + std::to_string(ges.size()) + " tag:honest => check=" + b2s(k.sk->check()));
+	} k.L = mpz_sizeinbase(k.sk->m, 2); k.mnsize = k.L / 8; k.can_enc = enc_ok(k.sk->m); k.nizk = nizk;
 	k.label = std::string(name);
 	emit("prop.rabin key " + k.label + " bits=" + std::to_string(bits) + " L=" + std::to_string(k.L) + " nizk=" + b2s(nizk) + " enc=" + b2s(k.can_enc) +
 		" p3mod4=" + b2s(mpz_fdiv_ui(k.sk->p, 4) == 3) + " q3mod4=" + b2s(mpz_fdiv_ui(k.sk->q, 4) == 3) + " => generated");
